@@ -36,12 +36,25 @@ that is called the same and one whose own a[EOF] is unbound (to-end-of-stream); 
 complete input is built per structure and configuration and CUT AT EVERY POSITION: where the input is too short for the announced
 number of elements the parse must raise EOFError (never deliver a shorter array), in both reader modes; complete inputs (also
 followed by further bytes) go through the same laws as everything else (reference parser, dumps, model).
+
+Wrong-length values at every nesting level (harness/v9_c07.py): `[typedef ELEM row_t[k];] struct T { [m;] n; [m;] ELEM a[d1][d2]([d3][d4]); [tail;] }`
+with 2-4 dimensions of mixed length forms (at least one fixed, mostly an inner one), 34 element kinds incl. structures that hold
+rows / grids / nested structures of their own; the array type spelled as declarator, typedef'd rows (one or two typedefs deep), API
+construction (cs.uint16[3][2], _make_array, _make_struct + compile) or via loadfile; T on its own, as a member of O, as the element of
+`T ts[2]`, or no structure at all (the array type is the top-level type).  A well-formed value - decoded from a generated input by
+the reference parser, constructed as plain lists / tuples by keyword, positional or attribute construction, or the library's own
+parsed value - has to dump to exactly the input's bytes (C order) and parse back; then ONE fixed-size array node of the value, at
+ANY depth (rows of a[2][3], rows of rows, the r[k] of a structure element, the a of the T inside O), gets a different number of
+elements - shorter, longer, empty, doubled, elements shifted to a sibling row so that the totals still fit, transposed, flattened,
+two nodes at once; by list methods in place, by re-assigning the field, or constructed that way - and every enclosing value (the
+node, its rows/arrays/structures, the top-level value) has to refuse to dump it with ArraySizeError through TYPE.dumps(v), v.dumps(),
+TYPE.write(stream, v) and v.write(stream) (io.BytesIO and a real file); the top-level results also go to the model.
 """
 from __future__ import annotations
 
 import itertools
 
-from .. import defs, impl, refimpl, s3_sets, t2_arrays, v4_c07
+from .. import defs, impl, refimpl, s3_sets, t2_arrays, v4_c07, v9_c07
 from ..common import Result, mkrng
 from ..structprops import Engine, load, real_parse, rand_bytes
 
@@ -376,6 +389,11 @@ def run(env) -> Result:
                 "an enum member/type name, the structure's name (24 names) or plainly; 7 count-field types (1/2/4 bytes, signed, enum, alias) and bit-fields; 5 dimension "
                 "shapes; 26 element kinds; with/without a field behind; a complete input per structure and configuration, cut at every "
                 "position: a short input must raise EOFError, never give a shorter array; complete inputs under all the laws above. "
+                "Wrong-length values at every nesting level: 2-4 dimensions of mixed forms x 34 element kinds x {declarator, typedef'd rows, API "
+                "construction, loadfile} x {T, T in O, T ts[2] in O, bare array type} x configurations; a well-formed value (reference-decoded; "
+                "lists, tuples, kw/positional/attribute construction, parsed) dumps to the input's bytes through TYPE.dumps/v.dumps/TYPE.write/"
+                "v.write (BytesIO, file) at every enclosing value; with one fixed-size node at any depth resized, shifted between sibling rows, "
+                "transposed or flattened (in place, re-assigned or constructed) every enclosing value refuses every call form with ArraySizeError. "
                 "distinct = (definition, config, input); non-trivial = the array has >= 1 element")
     eng = Engine(env, res, "C07")
     rnd = mkrng(env["seed"], "c07")
@@ -402,6 +420,8 @@ def run(env) -> Result:
     run_straddle(env, eng, res, mkrng(env["seed"], "c07-straddle"))
     run_named(env, eng, res, mkrng(env["seed"], "c07-named"))
     run_spacing(env, eng, res, mkrng(env["seed"], "c07-spacing"))
+    eng.flush()
+    v9_c07.run(env, eng, res, mkrng(env["seed"], "c07-shapes"))
     eng.flush()
     return res
 
